@@ -8,7 +8,7 @@ git -C /repo worktree add -q --detach "$R" HEAD || exit 2
 ok=1
 demos=$(ls "$D"/*_test.go "$D"/*_test.go.txt 2>/dev/null)
 [ -z "$demos" ] && { echo "NO DEMO TEST FILE"; ok=0; }
-place() { for f in $demos; do pkg=$(grep -m1 '^package ' "$f" | awk '{print $2}'); b=$(basename "$f" .txt); case "$pkg" in fs|fs_test) cp "$f" "$R/copy/$b";; fsutil|fsutil_test) cp "$f" "$R/$b";; types) cp "$f" "$R/types/$b";; util) cp "$f" "$R/util/$b";; *) echo "unknown package $pkg"; ok=0;; esac; done; }
+place() { for f in $demos; do pkg=$(grep -m1 '^package ' "$f" | awk '{print $2}'); b=$(basename "$f" .txt); case "$pkg" in fs|fs_test) cp "$f" "$R/copy/$b";; fsutil|fsutil_test) cp "$f" "$R/$b";; types|types_test) cp "$f" "$R/types/$b";; util|util_test) cp "$f" "$R/util/$b";; *) echo "unknown package $pkg"; ok=0;; esac; done; }
 unplace() { (cd "$R" && git clean -fdq); }
 names() { grep -ho '^func Test[A-Za-z0-9_]*' $demos | sed 's/func //' | paste -sd'|'; }
 RUN="^($(names))\$"
